@@ -855,7 +855,7 @@ pub fn escape_family(thorough: bool) -> Vec<Prog> {
     ("variant", "E", "E.Two(x, y)", "p.first()", "p.second()"),
   ];
   // uses of `p` (statement text; FST / SND are the component reads)
-  let uses: [(&str, &str); 9] = [
+  let uses: [(&str, &str); 11] = [
     ("read-first", "Process.println(Str.fromInt(FST));"),
     ("read-both", "Process.println(Str.fromInt(FST * 10 + SND));"),
     ("pass-to-reader", "Process.println(Str.fromInt(Main.reader(p)));"),
@@ -865,6 +865,8 @@ pub fn escape_family(thorough: bool) -> Vec<Prog> {
     ("pass-to-identity", "let q = Main.id(p); Process.println(Str.fromInt(Main.reader(q)));"),
     ("wrap-in-option", "let o = Opt.Some(p); Process.println(o.fold(\"none\", (w) -> Str.fromInt(Main.reader(w))));"),
     ("unused", "let _ = p;"),
+    ("pass-to-local-closure", "let fv = (q: TY) -> READQ * 3; Process.println(Str.fromInt(fv(p)));"),
+    ("pass-to-returned-closure", "Process.println(Str.fromInt(Main.mkReader()(p)));"),
   ];
   let contexts: [(&str, &str); 3] = [
     ("straight", "    let p = ALLOC;\n    USES\n    SND"),
@@ -872,6 +874,24 @@ pub fn escape_family(thorough: bool) -> Vec<Prog> {
     ("loop", "    if x <= 0 { y } else {\n      let p = ALLOC;\n      USES\n      Main.run(x - 1, SND + 1)\n    }"),
   ];
   let mut out = vec![];
+  // the allocation handed over directly, never bound: f(P.init(x, y)) for every kind of callee
+  for (aname, ty, alloc, fst, _) in allocs {
+    let readq = fst.replace("p.", "q.").replace("(p)", "(q)");
+    for (cname, call) in [
+      ("direct-function", "Main.reader(ALLOC)"),
+      ("local-closure", "fv(ALLOC)"),
+      ("returned-closure", "Main.mkReader()(ALLOC)"),
+      ("function-parameter", "Main.apply(fv, ALLOC)"),
+      ("generic-identity-then-closure", "fv(Main.id(ALLOC))"),
+    ] {
+      let text = format!(
+        "class P(val a: int, val b: int) {{}}\nclass G<T>(val a: T, val b: T) {{}}\nclass E(Two(int, int), Zero) {{\n  method first(): int = match this {{ Two(a, _) -> a, Zero -> 0 }}\n  method second(): int = match this {{ Two(_, b) -> b, Zero -> 0 }}\n}}\nclass Main {{\n  function <T> id(t: T): T = t\n  function reader(q: {ty}): int = {readq} * 2\n  function mkReader(): ({ty}) -> int = (q) -> {readq} * 5\n  function apply(f: ({ty}) -> int, v: {ty}): int = f(v)\n  function run(x: int, y: int): int = {{\n    let fv = (q: {ty}) -> {readq} * 3 + y;\n    {} + {}\n  }}\n  function main(): unit = {{\n    Process.println(Str.fromInt(Main.run(3, 4)));\n    Process.println(Str.fromInt(Main.run(\"2\".toInt(), \"9\".toInt())))\n  }}\n}}\n",
+        call.replace("ALLOC", alloc),
+        call.replace("ALLOC", &alloc.replace("x, y", "y, x + 1"))
+      );
+      out.push(Prog { family: "escape", shape: format!("alloc={aname} unbound-argument-of={cname}"), name: format!("escape {aname} unbound argument of {cname}"), text });
+    }
+  }
   for (aname, ty, alloc, fst, snd) in allocs {
     for (cname, ctx) in contexts {
       let mut use_lists: Vec<Vec<usize>> = (0..uses.len()).map(|i| vec![i]).collect();
@@ -885,11 +905,12 @@ pub fn escape_family(thorough: bool) -> Vec<Prog> {
         }
       }
       for ul in use_lists {
-        let stmts: String = ul.iter().map(|i| uses[*i].1.replace("FST", fst).replace("SND", snd)).collect::<Vec<_>>().join("\n      ");
+        let readq = fst.replace("p.", "q.").replace("(p)", "(q)");
+        let stmts: String = ul.iter().map(|i| uses[*i].1.replace("FST", fst).replace("SND", snd).replace("TY", ty).replace("READQ", &readq)).collect::<Vec<_>>().join("\n      ");
         let body = ctx.replace("ALLOC", alloc).replace("USES", &stmts).replace("SND", snd);
         let reader_body = fst.replace("p.", "q.").replace("(p)", "(q)");
         let text = format!(
-          "class P(val a: int, val b: int) {{}}\nclass G<T>(val a: T, val b: T) {{}}\nclass E(Two(int, int), Zero) {{\n  method first(): int = match this {{ Two(a, _) -> a, Zero -> 0 }}\n  method second(): int = match this {{ Two(_, b) -> b, Zero -> 0 }}\n}}\nclass Box<T>(val v: T) {{}}\nclass Opt<T>(None, Some(T)) {{\n  method <R> fold(d: R, f: (T) -> R): R = match this {{ None -> d, Some(t) -> f(t) }}\n}}\nclass Main {{\n  function <T> id(t: T): T = t\n  function reader(q: {ty}): int = {reader_body} * 2\n  function run(x: int, y: int): int = {{\n{body}\n  }}\n  function main(): unit = {{\n    Process.println(Str.fromInt(Main.run(3, 4)));\n    Process.println(Str.fromInt(Main.run(\"2\".toInt(), \"9\".toInt())));\n    Process.println(Str.fromInt(Main.run(\"0\".toInt(), \"1\".toInt())))\n  }}\n}}\n"
+          "class P(val a: int, val b: int) {{}}\nclass G<T>(val a: T, val b: T) {{}}\nclass E(Two(int, int), Zero) {{\n  method first(): int = match this {{ Two(a, _) -> a, Zero -> 0 }}\n  method second(): int = match this {{ Two(_, b) -> b, Zero -> 0 }}\n}}\nclass Box<T>(val v: T) {{}}\nclass Opt<T>(None, Some(T)) {{\n  method <R> fold(d: R, f: (T) -> R): R = match this {{ None -> d, Some(t) -> f(t) }}\n}}\nclass Main {{\n  function <T> id(t: T): T = t\n  function reader(q: {ty}): int = {reader_body} * 2\n  function mkReader(): ({ty}) -> int = (q) -> {reader_body} * 5\n  function run(x: int, y: int): int = {{\n{body}\n  }}\n  function main(): unit = {{\n    Process.println(Str.fromInt(Main.run(3, 4)));\n    Process.println(Str.fromInt(Main.run(\"2\".toInt(), \"9\".toInt())));\n    Process.println(Str.fromInt(Main.run(\"0\".toInt(), \"1\".toInt())))\n  }}\n}}\n"
         );
         let unames: Vec<&str> = ul.iter().map(|i| uses[*i].0).collect();
         out.push(Prog {
@@ -897,6 +918,105 @@ pub fn escape_family(thorough: bool) -> Vec<Prog> {
           shape: format!("alloc={aname} uses={} context={cname}", unames.join("+")),
           name: format!("escape {aname} {} {cname}", unames.join("+")),
           text,
+        });
+      }
+    }
+  }
+  out
+}
+
+/// Tail recursion that passes its NON-int parameters on in permuted order (swap, rotate, duplicate):
+/// loop variables fed from other loop variables, for every representation class of parameter type
+/// (enum with a payload-free and a payload variant, single-variant enum, struct, Str, bool,
+/// closure, generic option of struct) and for argument values of every variant.
+pub fn typed_tail_recursion_family() -> Vec<Prog> {
+  // (type name, type, values (as expressions), show of a value X)
+  let kinds: [(&str, &str, Vec<&str>, &str); 7] = [
+    ("option-enum", "Slot", vec!["Slot.Full(7)", "Slot.Empty()", "Slot.Full(2)"], "X.show()"),
+    ("newtype-enum", "One", vec!["One.Only(3)", "One.Only(4)", "One.Only(5)"], "X.show()"),
+    ("struct", "P", vec!["P.init(1, 2)", "P.init(3, 4)", "P.init(5, 6)"], "X.show()"),
+    ("string", "Str", vec!["\"x\"", "\"\"", "Str.fromInt(\"12\".toInt())"], "X"),
+    ("bool", "bool", vec!["true", "false", "\"1\".toInt() == 1"], "(if X { \"T\" } else { \"F\" })"),
+    ("closure", "(int) -> int", vec!["(v) -> v + 1", "(v) -> v * 2", "(v) -> 0 - v"], "Str.fromInt(X(10))"),
+    ("option-of-struct", "Opt<P>", vec!["Opt.Some(P.init(1, 2))", "Opt.None()", "Opt.Some(P.init(8, 9))"], "X.fold(\"none\", (q) -> q.show())"),
+  ];
+  let perms2: [(&str, &str, &str); 4] = [("swap", "b", "a"), ("dup-first", "a", "a"), ("dup-second", "b", "b"), ("keep", "a", "b")];
+  let perms3: [(&str, &str, &str, &str); 3] = [("rotate-left", "b", "c", "a"), ("rotate-right", "c", "a", "b"), ("swap-outer", "c", "b", "a")];
+  let decls = "class Slot(Empty, Full(int)) {\n  method show(): Str = match this { Empty -> \"empty\", Full(v) -> \"full \" :: Str.fromInt(v) }\n}\nclass One(Only(int)) {\n  method show(): Str = match this { Only(v) -> \"only \" :: Str.fromInt(v) }\n}\nclass P(val a: int, val b: int) {\n  method show(): Str = \"P\" :: Str.fromInt(this.a) :: \",\" :: Str.fromInt(this.b)\n}\nclass Opt<T>(None, Some(T)) {\n  method <R> fold(d: R, f: (T) -> R): R = match this { None -> d, Some(t) -> f(t) }\n}\n";
+  let mut out = vec![];
+  for (kname, ty, vals, show) in &kinds {
+    let sh = |x: &str| show.replace('X', x);
+    for (pname, na, nb) in perms2 {
+      let mut main = String::new();
+      for (i, va) in vals.iter().enumerate() {
+        for (j, vb) in vals.iter().enumerate() {
+          if i != j {
+            for n in [0, 1, 2, 3] {
+              main.push_str(&format!("    Main.f({va}, {vb}, {n});\n"));
+            }
+          }
+        }
+      }
+      let text = format!(
+        "{decls}class Main {{\n  function f(a: {ty}, b: {ty}, n: int): unit = {{\n    Process.println({} :: \" | \" :: {});\n    if n <= 0 {{ }} else {{ Main.f({na}, {nb}, n - 1) }}\n  }}\n  function main(): unit = {{\n{main}  }}\n}}\n",
+        sh("a"),
+        sh("b")
+      );
+      out.push(Prog { family: "typed-tail-recursion", shape: format!("type={kname} update={pname}"), name: format!("typed tail recursion {kname} {pname}"), text });
+    }
+    for (pname, na, nb, nc) in perms3 {
+      let mut main = String::new();
+      for n in [0, 1, 2, 3, 4] {
+        main.push_str(&format!("    Process.println(Main.g({}, {}, {}, {n}));\n", vals[0], vals[1], vals[2]));
+        main.push_str(&format!("    Process.println(Main.g({}, {}, {}, {n}));\n", vals[1], vals[0], vals[1]));
+      }
+      let text = format!(
+        "{decls}class Main {{\n  function g(a: {ty}, b: {ty}, c: {ty}, n: int): Str =\n    if n <= 0 {{ {} :: \" | \" :: {} :: \" | \" :: {} }} else {{ Main.g({na}, {nb}, {nc}, n - 1) }}\n  function main(): unit = {{\n{main}  }}\n}}\n",
+        sh("a"),
+        sh("b"),
+        sh("c")
+      );
+      out.push(Prog { family: "typed-tail-recursion", shape: format!("type={kname} update={pname}"), name: format!("typed tail recursion {kname} {pname}"), text });
+    }
+  }
+  out
+}
+
+/// Does the front end accept this single-module program (no std imports)?
+fn accepted_single_module(text: &str) -> bool {
+  crate::run::guarded(|| {
+    let mut heap = samlang_heap::Heap::new();
+    let m = crate::exec::module_ref(&mut heap, "Main");
+    let mut es = samlang_errors::ErrorSet::new();
+    let parsed = samlang_parser::parse_source_module_from_text(text, m, &mut heap, &mut es);
+    let _ = samlang_checker::type_check_sources(&std::collections::HashMap::from([(m, parsed)]), &mut es);
+    !es.has_errors()
+  })
+  .unwrap_or(false)
+}
+
+/// The well-typed hint-dependent expression shapes of C13's spelling family as runnable programs:
+/// whatever the checker accepts must also get through the rest of the pipeline.
+pub fn inference_shape_family(thorough: bool) -> Vec<Prog> {
+  let mut out = vec![];
+  let max = if thorough { 3 } else { 2 };
+  for k in 0..=max {
+    for t in crate::shapes::spelling_trees_exact(k) {
+      for (ci, (cname, ctx)) in crate::shapes::SPELLING_CONTEXTS.iter().enumerate() {
+        // the largest level in two contexts only (one closed, one generic)
+        if k == max && k >= 2 && ![0, 5].contains(&ci) {
+          continue;
+        }
+        let e = ctx.replace('@', &t);
+        // under-constrained shapes (e.g. `Main.size(Option.None())`) are legitimately rejected
+        if !accepted_single_module(&crate::shapes::spelling_module(&e)) {
+          continue;
+        }
+        out.push(Prog {
+          family: "inference-shape",
+          shape: format!("context={cname} internal-nodes={k}"),
+          name: format!("inference shape {e}"),
+          text: crate::shapes::spelling_module(&e),
         });
       }
     }
@@ -1255,6 +1375,8 @@ pub fn all_families(thorough: bool) -> Vec<Prog> {
   v.extend(generic_closure_family());
   v.extend(recursion_family(thorough));
   v.extend(self_call_position_family());
+  v.extend(typed_tail_recursion_family());
+  v.extend(inference_shape_family(thorough));
   v.extend(constant_parameter_family());
   v.extend(escape_family(thorough));
   v.extend(vec_family(thorough));
